@@ -543,7 +543,9 @@ def gen_inference_spec(tape, disc_kinds=('disc', 'dist'), max_priors=3, extra_sh
             A = np.eye(width) + 0.1 * np.arange(width * width).reshape(width, width) / max(
                 1, width * width)
             kw['VI'] = A @ A.T
-        nodes.append({'name': 'd', 'kind': 'dist', 'parents': dpar, 'metric': metric, 'kw': kw})
+        nodes.append({'name': 'd', 'kind': 'dist', 'parents': dpar, 'metric': metric, 'kw': kw,
+                      # the metric may be handed over as a callable dist(XA, XB) instead of a name
+                      'callable': tape.chance('metric_as_callable', 1, 6)})
     elif dk == 'adist':
         nodes.append({'name': 'd', 'kind': 'adist', 'parents': dpar})
     extras = []
@@ -617,7 +619,13 @@ def build_model(elfi, spec, order=None, tag=None):
             continue
         parents = [refs[p] if isinstance(p, str) else p for p in n.get('parents', [])]
         if kind == 'dist':
-            refs[name] = elfi.Distance(n['metric'], *parents, model=m, name=name, **n['kw'])
+            if n.get('callable'):
+                from functools import partial
+                from scipy.spatial.distance import cdist
+                refs[name] = elfi.Distance(partial(cdist, metric=n['metric'], **n['kw']),
+                                           *parents, model=m, name=name)
+            else:
+                refs[name] = elfi.Distance(n['metric'], *parents, model=m, name=name, **n['kw'])
             continue
         if kind == 'adist':
             refs[name] = elfi.AdaptiveDistance(*parents, model=m, name=name)
